@@ -1,0 +1,18 @@
+//go:build verif
+// +build verif
+
+package anndb
+
+import (
+	"github.com/marekgalovic/anndb/cluster"
+	"github.com/marekgalovic/anndb/storage"
+	"github.com/marekgalovic/anndb/storage/raft"
+)
+
+// Verification hooks. Compiled only with -tags verif.
+
+func (this *Server) VerifSetup() error                            { return this.setup() }
+func (this *Server) VerifDatasetManager() *storage.DatasetManager { return this.datasetManager }
+func (this *Server) VerifZeroGroup() *raft.RaftGroup              { return this.zeroGroup }
+func (this *Server) VerifConn() *cluster.Conn                     { return this.clusterConn }
+func (this *Server) VerifNodesManager() *raft.NodesManager        { return this.nodesManager }
